@@ -61,7 +61,11 @@ def run_case(case, rec, cid):
             arg = float(arg)
         elif case.get("as") == "str":
             arg = str(arg)
-        st, v = outcome(lambda: with_zone(cfg, lambda: D.get_timepoint_from_seconds_since_unix_epoch(arg, utc=case["utc"])))
+        if case.get("as") == "strptime":      # the same conversion reached through the parser's %s directive (local zone)
+            from metomi.isodatetime.parsers import TimePointParser
+            st, v = outcome(lambda: with_zone(cfg, lambda: TimePointParser().strptime(str(n), "%s")))
+        else:
+            st, v = outcome(lambda: with_zone(cfg, lambda: D.get_timepoint_from_seconds_since_unix_epoch(arg, utc=case["utc"])))
         if st == "ok":
             rec.ev("FromEpoch", cid, n=case["n"], utc=case["utc"], q=proj_tp(v), ok=True, cls="", **cfg)
         else:
@@ -107,6 +111,9 @@ def expand(job):
                 us = rnd.choice([500000, 250000, 125000, 1, 999999, 100000])
             off = rnd.choice([0, 60, -300, 330, -210, 765, -30, 30, 840, -720])
             cfg = {"tz": -off * 60, "alt": -(off + 60) * 60, "daylight": rnd.choice([0, 1]), "isdst": rnd.choice([0, 1])}
+            if us == 0 and rnd.random() < 0.15 and abs(n) < 10 ** 11:
+                yield dict(kind="epoch", mode=sp, n=[n // DAY, n % DAY, 0], utc=False, **{"as": "strptime"}, **cfg)
+                continue
             yield dict(kind="epoch", mode=sp, n=[n // DAY, n % DAY, us], utc=rnd.random() < 0.5,
                        **{"as": rnd.choice(["int", "float", "str"]) if abs(n) < 2 ** 52 and us == 0 else "float"}, **cfg)
     elif k == "since":
